@@ -374,6 +374,35 @@ theorem f32_empty_list_closed :
       e'.shared.com.cursor = 2 ∧ e'.shared.com.stack = [] :=
   ⟨_, _, _, rfl, rfl, rfl, rfl, rfl, rfl, rfl⟩
 
+/-! ### known finding FX1 (found on the C API by `capi_props`): a list over an EMPTY symbol table is opened
+
+`chewing_new2` over a data directory without `symbols.dat` loads an empty symbol table; grave, Ctrl-0/1 and Down on a
+character without special symbols (`new_symbol` / the fall-back of `new_special_symbol`) open the symbol list
+nevertheless: an open list with 0 candidates, 0 pages, page 0.  `page_in_range` above is the `_partial` form — its
+invariant `PageOk` reads "page below the page count OR nothing listed", and "nothing listed" is exactly this class
+(phrase lists without candidates are not opened / are closed since the F02/F03 and F32 repairs). -/
+
+/-- no symbol table (the default `symSel := {}`), empty buffers -/
+def fx1Start : Editor Unit Nat := { shared := { syl := 0, dict := () } }
+/-- the grave key -/
+def fx1Ops : List (Op Nat) := [.key { index := 14, code := KC.grave, unicode := 96 }]
+
+/-- the statement's claim without "or nothing listed": an open list is on a page below its page count -/
+def open_list_on_a_page_full : Prop :=
+  ∀ (D L : Type) (env : Env D L), FlushKeepsLookups env → ClearSylKeepsAlt env →
+    ∀ (e e' : Editor D L) (ops : List (Op L)) (s : Selecting), e.PageInv env →
+      e.run env ops = .ok e' → e'.state = .selecting s →
+      ∃ tp, Selecting.totalPage env s e'.shared = .ok tp ∧ s.pageNo < tp
+
+/-- **FX1**: with an empty symbol table the grave key opens a list of 0 pages (current page 0 is not below it) -/
+theorem open_list_on_a_page_refuted : ¬ open_list_on_a_page_full := by
+  intro h
+  obtain ⟨tp, h1, h2⟩ := h Unit Nat f32Env (fun _ _ _ => rfl) (fun _ _ => rfl) fx1Start _ fx1Ops _
+    (page_inv_init f32Env _) rfl rfl
+  have h0 : (Outcome.ok 0 : Outcome Nat) = Outcome.ok tp := h1
+  have : tp = 0 := by injection h0 with h0; exact h0.symm
+  omega
+
 /-! ## 3. Choosing -/
 
 /-- the index addressed by choosing `n` on the current page is `page·per + n` — for every list a
